@@ -964,6 +964,10 @@ type RunSpec struct {
 	Signer   []SOutSpec
 	// CtxDone: the context handed to gensign.Run is already cancelled
 	CtxDone bool
+	// Dir: when non-nil, the content of the registered-key directory is replaced by these entries before the run
+	// (keys are rotated, users are deregistered while the handlers live on); DirSet marks an explicit empty directory
+	Dir    []DirEntry
+	DirSet bool
 }
 
 type SessionSpec struct {
@@ -989,6 +993,7 @@ type RunResult struct {
 	SignerG   string
 	SignerOut []string
 	Requests  []*proto.SSHCertificateSigningRequest
+	DirG      string // "None" or "(Some dir)": the directory written before this run
 }
 
 type Session struct {
@@ -1004,6 +1009,7 @@ type Session struct {
 	DirG     string
 	KeysG    []uint64
 	BuildErr error
+	curDir   []DirEntry // the directory as last written
 }
 
 type runCtx struct {
@@ -1023,9 +1029,9 @@ func (r *runCtx) wouldDraw(p *csr.ReqParam) bool {
 
 func (s *Session) registeredParses(name string) bool {
 	find := func(n string) *DirEntry {
-		for i := range s.Spec.Dir {
-			if s.Spec.Dir[i].Name == n {
-				return &s.Spec.Dir[i]
+		for i := range s.curDir {
+			if s.curDir[i].Name == n {
+				return &s.curDir[i]
 			}
 		}
 		return nil
@@ -1068,6 +1074,28 @@ func NewRegular(dir string, validity *uint64, keyids [][2]string, conn net.Conn)
 		return nil, err
 	}
 	return regular.NewHandler(&gc, conn)
+}
+
+func (s *Session) gDir(entries []DirEntry) string {
+	var ditems []string
+	for _, e := range entries {
+		ditems = append(ditems, core.GPair(core.GStr(e.Name), gFile(s.ids, e)))
+	}
+	return core.GList(ditems)
+}
+
+// replaceDir empties the registered-key directory and writes the new entries.
+func replaceDir(path string, entries []DirEntry, r *mrand.Rand) error {
+	old, err := os.ReadDir(path)
+	if err != nil {
+		return err
+	}
+	for _, e := range old {
+		if err := os.RemoveAll(filepath.Join(path, e.Name())); err != nil {
+			return err
+		}
+	}
+	return writeDir(path, entries, r)
 }
 
 func gFile(ids *IDs, e DirEntry) string {
@@ -1153,11 +1181,8 @@ func Execute(pool *Pool, spec SessionSpec, rng *mrand.Rand) *Session {
 		s.BuildErr = err
 		return s
 	}
-	var ditems []string
-	for _, e := range spec.Dir {
-		ditems = append(ditems, core.GPair(core.GStr(e.Name), gFile(s.ids, e)))
-	}
-	s.DirG = core.GList(ditems)
+	s.curDir = spec.Dir
+	s.DirG = s.gDir(spec.Dir)
 
 	s.Agent = NewScriptedAgent(s.ids, pool)
 	s.Agent.onChal = func(id uint64) { s.chal = append(s.chal, id) }
@@ -1218,6 +1243,15 @@ func Execute(pool *Pool, spec SessionSpec, rng *mrand.Rand) *Session {
 				live.handlers = append(live.handlers, h)
 			}
 		}
+		dirG := "None"
+		if rs.Dir != nil || rs.DirSet {
+			if err := replaceDir(dir, rs.Dir, rng); err != nil {
+				s.BuildErr = err
+				return s
+			}
+			s.curDir = rs.Dir
+			dirG = "(Some " + s.gDir(rs.Dir) + ")"
+		}
 		s.Agent.BeginRun(rec, rs.Beh, rs.Faults, live.srvConn)
 		signer := &MockSigner{ids: s.ids, pool: pool, rec: rec, Script: rs.Signer}
 		var handlers []gensign.Handler
@@ -1248,7 +1282,7 @@ func Execute(pool *Pool, spec SessionSpec, rng *mrand.Rand) *Session {
 		}
 		chalBefore := len(s.Agent.ChalLens)
 		var runErr error
-		res := RunResult{}
+		res := RunResult{DirG: dirG}
 		res.Crashed, res.CrashMsg = core.Guard(func() {
 			// a cancellable context with a deadline, as cmd/gensign passes
 			ctx, cancel := context.WithTimeout(context.Background(), 2*time.Minute)
@@ -1389,7 +1423,7 @@ func (s *Session) Gallina() string {
 			evs = append(evs, e.G)
 		}
 		obs := core.GApp("mkObs", res.Kind, core.GList(evs), res.StoreG)
-		runs = append(runs, core.GApp("mkCRun", gParams(rs.Params), core.GList(hs), s.gBeh(rs.Beh), core.GList(faults), res.SignerG, obs))
+		runs = append(runs, core.GApp("mkCRun", res.DirG, gParams(rs.Params), core.GList(hs), s.gBeh(rs.Beh), core.GList(faults), res.SignerG, obs))
 	}
 	var chal, keys []string
 	for _, c := range s.chalStream() {
@@ -1434,22 +1468,31 @@ func (s *Session) Human() interface{} {
 		runs = append(runs, map[string]interface{}{
 			"params": params, "handlers": hs, "agent_behaviour": BehNames[rs.Beh.Kind], "replay_index": rs.Beh.Index,
 			"agent_faults": rs.Faults, "signer_script": rs.Signer,
-			"result": res.KindName, "error": res.Err, "events": evs, "signer_returned": res.SignerOut, "agent_after": res.Store,
+			"key_dir_replaced_before_run": dirHuman(rs.Dir, rs.Dir != nil || rs.DirSet),
+			"result":                      res.KindName, "error": res.Err, "events": evs, "signer_returned": res.SignerOut, "agent_after": res.Store,
 		})
 	}
-	var dir []string
-	for _, e := range s.Spec.Dir {
+	dir := dirHuman(s.Spec.Dir, true)
+	var st0 []string
+	for _, i := range s.Spec.Store0 {
+		st0 = append(st0, fmt.Sprintf("%s cert=%v %q life=%d", i.Key.Name, i.Cert, i.Comment, i.Life))
+	}
+	return map[string]interface{}{"key_dir": dir, "agent_before": st0, "reuse_handlers": s.Spec.Reuse, "runs": runs}
+}
+
+func dirHuman(entries []DirEntry, set bool) interface{} {
+	if !set {
+		return nil
+	}
+	dir := []string{}
+	for _, e := range entries {
 		k := []string{"unreadable(directory)", "unparsable", "key"}[e.Kind]
 		if e.Kind == FileKey {
 			k += ":" + e.Key.Name
 		}
 		dir = append(dir, e.Name+" = "+k)
 	}
-	var st0 []string
-	for _, i := range s.Spec.Store0 {
-		st0 = append(st0, fmt.Sprintf("%s cert=%v %q life=%d", i.Key.Name, i.Cert, i.Comment, i.Life))
-	}
-	return map[string]interface{}{"key_dir": dir, "agent_before": st0, "reuse_handlers": s.Spec.Reuse, "runs": runs}
+	return dir
 }
 
 // Imports is the Coq import line of the case files.
